@@ -1198,7 +1198,10 @@ class PDFCIDFont(PDFFont):
             self.disps = {}
             self.default_disp = 0
             widths = get_widths(list_value(spec.get("W", [])))
-            default_width = spec.get("DW", 1000)
+            default_width = resolve1(spec.get("DW", 1000))
+            if not isinstance(default_width, (int, float)):
+                log.warning(f"Ignoring /DW {default_width!r}: it is not a number")
+                default_width = 1000
         PDFFont.__init__(self, descriptor, widths, default_width=default_width)
 
     def get_cmap_from_spec(self, spec: Mapping[str, Any], strict: bool) -> CMapBase:
